@@ -616,6 +616,12 @@ example : needsConversionFull [""] [("", 17)] 18 = true ∧
     needsConversionFull ["", "com.microsoft"] [("com.microsoft", 1), ("", 17)] 17 = false ∧
     needsConversionFull ["custom.dom"] [("custom.dom", 1), ("", 13)] 18 = false := by decide
 
+/-- **`generated_adapt_decision`** (tie G): the decision code of `adapt_inline`, re-extracted from
+    `_adapt.py` on this run, is expression by expression the text `needsConversionFull` transcribes -
+    whatever inputs the oracle generates, an additional guard / early return / version source breaks this. -/
+theorem generated_adapt_decision : Generated.InlineFacts.adaptShape = adaptShapeModelled := by
+  decide
+
 /-- `node.model` after `adapt_inline` is the object it was before, whether `to_onnx` raises or not
     (for the statement list extracted from `_adapt.adapt_inline` on this run; C12 relies on it) -/
 theorem adapt_restores_model {α : Type} (base target junk : α) (emitRaises : Bool) :
